@@ -21,8 +21,13 @@
   handed the key back to its transfer target without touching that waiter, the stale edge hid the true
   dependency from `depends_on`, and two threads ended up waiting for each other through transferred
   keys (corpus/C18/kf-deadlock-stale-edge-after-reclaim.replay).  salsa commit 451fce7 wakes the
-  waiters at hand-back; the model follows the repaired code (`releaseSelf`), `c18_handback_wakes_waiters`
-  proves the repaired step leaves no dependents behind, and the trace driver's decidable W3
+  waiters at hand-back; e06010e restricts that to the case where the releasing thread does NOT own the
+  key's transfer target (waking a waiter whose edge is accurate takes it out of the wait-for graph for a
+  moment, which let a cycle head iterate on its own: "Can't merge cycle heads … with different
+  iterations").  The model follows the repaired code (`releaseSelf`): `c18_handback_wakes_waiters` proves
+  that in the not-own-target case the step leaves no dependents behind,
+  `c18_handback_own_target_keeps_edges_accurate` that in the own-target case nobody is woken and every
+  waiter's edge points at the resolved owner of the handed-back key, and the trace driver's decidable W3
   (`checkW3`) flags the old behaviour on the recorded trace (corpus/DG/kf-stale-edge-prefix.ops).
 
   NOT YET PROVED / NOT CLAIMED
@@ -93,17 +98,39 @@ theorem c18_no_dependents_without_owner (ops : List Op) (s : State) (h : runC in
     (∀ k st, s.sync k = some st → st.owner = .transferred → s.transferred k = none → s.qdeps k = []) :=
   C19.w6_no_dependents_without_owner ops s h
 
-/-- The repaired `release_self` (salsa 451fce7): handing a re-claimed transferred key back leaves it
-    `Transferred` with NO dependents — all former waiters have `Completed` and no edge, in particular
-    none keeps an edge to the releasing thread. -/
+/-- The repaired `release_self` (salsa 451fce7, condition since e06010e): handing back a re-claimed
+    transferred key whose transfer chain does NOT resolve to the releasing thread leaves it `Transferred`
+    with NO dependents — all former waiters have `Completed` and no edge, in particular none keeps an edge
+    to the releasing thread.  (Restated for e06010e: the hypothesis `hno` is new; without it the statement
+    is false for the current code, see the own-target theorem below.) -/
 theorem c18_handback_wakes_waiters (ops : List Op) (s : State) (h : runC init ops = some s)
-    (t k : Nat) (st : SyncState) (hk : s.sync k = some st) (hct : st.claimedTwice = true) (s' : State)
+    (t k : Nat) (st : SyncState) (hk : s.sync k = some st) (hct : st.claimedTwice = true)
+    (hno : resolvedOwner s k ≠ some t) (s' : State)
     (hs : step s (.releaseSelf t k) = some s') :
     s'.qdeps k = [] ∧
     (∃ st', s'.sync k = some st' ∧ st'.owner = .transferred ∧ st'.anyoneWaiting = false) ∧
     (∀ u, u ∈ s.qdeps k → s'.results u = some .completed ∧ s'.edges u = none) ∧
     (∀ k' u, u ∈ s'.qdeps k' → s'.edges u = some t → k' ≠ k) :=
-  C19.w3_handback_wakes_waiters ops s h t k st hk hct s' hs
+  C19.w3_handback_wakes_waiters ops s h t k st hk hct hno s' hs
+
+/-- Why e06010e's condition is right (holds in EVERY state): when the transfer chain of the re-claimed
+    key `k` resolves to the releasing thread `t` (it owns the transfer target), `release_self` wakes
+    nobody and changes only the sync entry of `k` (`Transferred`, `claimed_twice` cleared,
+    `anyone_waiting` kept); `k` keeps its `transferred` entry and still resolves to `t`, so every waiter
+    whose edge satisfied the `claimed_twice` clause of W3 (edge to the owner `t` or to the resolved owner)
+    satisfies the `Transferred` clause afterwards (edge to the resolved owner): edge accuracy is preserved
+    without any waiter leaving the wait-for graph. -/
+theorem c18_handback_own_target_keeps_edges_accurate (s : State) (t k : Nat) (st : SyncState)
+    (hk : s.sync k = some st) (hct : st.claimedTwice = true) (hown : resolvedOwner s k = some t)
+    (s' : State) (hs : step s (.releaseSelf t k) = some s') :
+    s'.edges = s.edges ∧ s'.qdeps = s.qdeps ∧ s'.results = s.results ∧
+    s'.transferred = s.transferred ∧ s'.tdeps = s.tdeps ∧
+    s'.sync k = some { st with claimedTwice := false, owner := .transferred } ∧
+    (∀ k', k' ≠ k → s'.sync k' = s.sync k') ∧
+    (s'.transferred k).isSome ∧ resolvedOwner s' k = some t ∧
+    (∀ u, u ∈ s'.qdeps k → (s.edges u = some t ∨ s.edges u = resolvedOwner s k) →
+      s'.edges u = resolvedOwner s' k) :=
+  C19.w3_handback_own_target_accurate s t k st hk hct hown s' hs
 
 /-- Progress, graph level only: in every reachable state (all ops, including transfers) every blocked
     thread transitively waits for a thread that is NOT blocked — so never are all threads blocked.
@@ -132,8 +159,19 @@ example : ((grunC init [.transferLock 2 0 4 (.thread 0), .transferLock 1 0 2 (.t
     .transferLock 3 0 1 (.thread 0)]).map fun s => (checkW4 s, threadIdOfTransferredQuery s 3 none,
     s.transferred 4)) = some (true, some (some 0), none) := by decide
 
--- hand-back: t2 waits on the re-claimed k1 (edge t2 → t1); `release_self` by t1 wakes it, W3 holds
+-- hand-back, own target: t2 waits on the re-claimed k1 (edge t2 → t1); t1 owns the transfer target k2, so
+-- `release_self` by t1 leaves t2 blocked on the resolved owner t1, W3 holds
 example : ((runC init (C19.transferOps.take 7 ++ [.claim 2 1 true true, .releaseSelf 1 1])).map fun s =>
+    (s.edges 2, s.results 2, s.qdeps 1, (s.sync 1).map (·.owner), checkW3 s [])) =
+    some (some 1, none, [2], some .transferred, true) := by decide
+example : ((runC init (C19.transferOps.take 7 ++ [.claim 2 1 true true])).map fun s =>
+    ((s.sync 1).map (·.claimedTwice), resolvedOwner s 1)) = some (some true, some 1) := by decide
+-- hand-back, other thread's target: t2 waits on k1 re-claimed by t0 (edge t2 → t0) while k1's chain resolves
+-- to t1; `release_self` by t0 wakes t2, W3 holds
+example : ((runC init (C19.handbackOps.take 7)).map fun s =>
+    (s.edges 2, (s.sync 1).map (·.claimedTwice), resolvedOwner s 1)) = some (some 0, some true, some 1) := by
+  decide
+example : ((runC init C19.handbackOps).map fun s =>
     (s.edges 2, s.results 2, s.qdeps 1, (s.sync 1).map (·.owner), checkW3 s [])) =
     some (none, some .completed, [], some .transferred, true) := by decide
 
